@@ -1170,7 +1170,7 @@ class Translator:
         env = Env({p: p for p, _ in params[1:]})
         text = self.tr(body, env, {})
         fuel = " (fuel : Nat)" if name in self.fuelled else ""
-        return "def %s %s%s : Prog %s :=\n%s\n" % (lean_name(name), self.binders(name), fuel, self.cur_ret, indent(text))
+        return "@[ctrl_unfold] def %s %s%s : Prog %s :=\n%s\n" % (lean_name(name), self.binders(name), fuel, self.cur_ret, indent(text))
 
 
 def replace_at(tree, target, repl):
